@@ -371,8 +371,8 @@ def write_evidence(path, prop, tier, seed, results, agg, known_hit, violations, 
     level = "proof" if (obligations and n_proved + len(known_hit) == len(obligations) and not only_bounded) else \
         ("exploration" if bounded and not obligations else "proof")
     try:        # a property whose core is decided by a bounded stand-in is reported at the level MANIFEST.json claims for it
-        notes = json.load(open(os.path.join(ROOT, "tools", "manifest_notes.json")))
-        level = notes.get(prop, {}).get("category") or level
+        mnotes = json.load(open(os.path.join(ROOT, "tools", "manifest_notes.json")))
+        level = mnotes.get(prop, {}).get("category") or level
     except Exception:
         pass
     b_evals = sum(b.get("evaluations", 0) for b in bounded)
